@@ -597,3 +597,17 @@ package argmapper
 //@   ensures result != nil && fresh(result) && result.NamedValue != nil && result.TypedValue != nil && result.InputSet != nil && fresh(result.InputSet) && !valid(result.Value) && forall(k, any, !has(result.InputSet, k))
 //@   assigns callState, map[string]reflect.Value, map[reflect.Type]reflect.Value, map[interface{}]graph.Vertex
 //@   modifies nothing
+
+// ---------------------------------------------------------------- call.go: reachTarget, Call (C02 C04 C09)
+//@ sort ArgMap = map[interface{}]reflect.Value
+//@ func (*Func).reachTarget
+//@   requires g != nil && state != nil && state.InputSet != nil && state.NamedValue != nil && state.TypedValue != nil
+//@   requires [no-earlier-failure] failed == nil
+//@   ensures  [success-means-no-converter-failed] imp(result1 == nil, failed == nil && result0 != nil)
+//@   ensures  [failing-converter-error-returned-verbatim] imp(failed != nil, result1 == failed)
+//@   ensures  [error-means-no-arguments] imp(result1 != nil, result0 == nil)
+//@   ensures  planning == old(planning)
+//@   assigns  Graph, Outer, Inner, HashM, VisitM, ItemM, []graph.Vertex, [][]graph.Vertex, []*distQueueItem, *graph.distQueue, graph.distQueueItem, valueVertex.Value, typedArgVertex.Value, typedOutputVertex.Value, valueVertex, typedArgVertex, callState, NamedM, TypedM, ArgMap, map[interface{}]graph.Vertex, []*Value, Value, valueInternal, ErrArgumentUnsatisfied, Result, structValue, Func.onceResult, Func.execs, []interface{}, []error, []reflect.Value, multierror.Error, rvstore, rvfresh, nexec, failed, lastStruct, fin, frozen, cnt, reported, dvisited, kpos, spos
+//@   modifies forall(x, *valueVertex, true), forall(x, *typedArgVertex, true), forall(x, *typedOutputVertex, true), forall(x, *Func, true), state, state.NamedValue, state.TypedValue, state.InputSet
+//@   loop 4 invariant failed == nil && planning == old(planning)
+//@   loop 5 invariant failed == nil && planning == old(planning)
